@@ -45,7 +45,7 @@ T = {
  # ---- third wave -------------------------------------------------------------------------------------------------------
  'c17-1': ('C17', 'selected-symbol import from a module with a private declaration before the exported one', 'module/Module::get_exported_symbol_by_name/post', 'first run UNDECIDED (exact-text R4 rewrite, ModClass stub lacked get_field_index); caught after R4g (generic Option-combinator rewrite) and the stub method'),
  'c17-2': ('C17', 'a write to the first undeclared module slot (slot == len)', 'module/Module::set_symbol_by_slot/post+pre', ''),
- 'c17-3': ('C17', 'a private name imported by name from a module that is already cached', None, 'op_import_symbol is not under contract: NOT decided'),
+ 'c17-3': ('C17', 'a private name imported by name from a module that is already cached', 'imports/Vm::op_import_symbol/post', 'missed by the first run (op_import_symbol not under contract); caught after the imports unit'),
  'c17-4': ('C17', 'two modules whose paths differ only in the package segment', None, 'full_import_path (string building) is outside reach: NOT decided'),
  'c10-1': ('C10', 'clear()/pop through a stale alias of a list that grew', 'kani:coll/o10_stale_pop', 'missed by the first run (harnesses only used un-forwarded lists); caught after the allocator-free forwarded-list constructor and the stale-alias harnesses'),
  'c10-2': ('C10', 'insert through a stale alias (forwarding pointer clobbered / list splits)', 'kani:coll/o10_stale_insert (thorough)', 'caught after the stale-alias harnesses'),
